@@ -35,6 +35,19 @@ CLAIMED["C14"] = dict(engine="clisim", design="DESIGN.md §5 C14",
    text="Seeded search over (dev-url command x initial dev state x failing statement position x crash point inside the replay) against the real CLI with a SQLite file as dev database; oracle by independent observer: a non-empty dev database is refused with the not-clean diagnostic and is logically identical afterwards, an empty one is empty afterwards on success and on every failure path, the migration directory is never written by a replay, the target of schema apply is untouched when the dev replay fails, and after a crash inside a replay the next command refuses the leftovers.",
    note="Logical (sqlite_master + rows) identity, byte identity reported as a probe; no crash point inside migrate lint; with HCL sources the SQLite driver never writes to the dev database, so only 'untouched' is required there.",
    technique="deterministic simulation: injected statement failures and SIGKILL at replay hook points in the real CLI, state invariants by independent observer, tape shrinking + exact replay")
+_walk_note = "SQLite only; every desired schema is first accepted by SQLite itself (simulator's own DDL); fault = k-th plan statement fails or the connection is abandoned after it, in a transaction (file) or not (none); known findings are listed in known_findings.txt."
+CLAIMED["C01"] = dict(engine="schemasim", design="DESIGN.md §5 C01, §4 E-C",
+   text="Seeded random walks of desired schemas on a real SQLite engine with rows inserted between steps and plans that fail or are abandoned midway; after every successful apply the difference to the desired schema is empty and the live catalog (read by an independent observer) equals the catalog of a reference database created from the desired schema by the simulator's own DDL; a failed apply in a transaction leaves the database identical; a fault-free failure must be data-dependent (the same plan succeeds once rows are removed).",
+   note=_walk_note, technique="deterministic simulation: seeded desired-state walks with injected statement failures / abandoned connections, reference-database oracle, tape shrinking + exact replay")
+CLAIMED["C03"] = dict(engine="schemasim", design="DESIGN.md §5 C03",
+   text="On every database state the C01 walk reaches (ALTER-rewritten, rebuilt, left by failed non-transactional applies): exported HCL evaluates back to the inspected schema in both directions, two inspections give identical bytes, and the SQL export recreates the same schema and observer catalog on a fresh engine.",
+   note=_walk_note, technique="deterministic simulation: invariants evaluated on history-reached states of the seeded walk, tape shrinking + exact replay")
+CLAIMED["C05"] = dict(engine="schemasim", design="DESIGN.md §5 C05",
+   text="Conservation oracle over the same walks: per table, row count and the multiset of rows projected on columns that keep name and declared type are unchanged by every successful apply (ALTER path and rebuild path counted separately), tables outside the change set are untouched, and a failed apply in a transaction changes nothing.",
+   note=_walk_note, technique="deterministic simulation: conservation invariant over seeded walks with injected plan failures, tape shrinking + exact replay")
+CLAIMED["C17"] = dict(engine="schemasim", design="DESIGN.md §5 C17 (SQLite part only)",
+   text="For every plan the walk applies successfully: reported reversible only if every schema change has reverse statements; for reversible plans the down sections of all five sqltool formatters are exactly the reverse statements in reverse order, and executing them on the real database restores the starting schema and catalog. MySQL/PostgreSQL are not claimed.",
+   note=_walk_note, technique="deterministic simulation: up/down executed on history-reached states of the seeded walk, tape shrinking + exact replay")
 
 NOT_BUILT = {
  "C01": "not built yet in this tree (planned claim, DESIGN \u00a75); listed here so that every unclaimed property has an entry",
